@@ -522,12 +522,12 @@ def run_key_order(case, ctx):
 FLOORS = {
     'equipment:class:b': (0.10, 'equipment'), 'equipment:equipment:trx-alias': (0.20, 'equipment'),
     'equipment:equipment:edfa-alias': (0.20, 'equipment'), 'equipment:equipment:si2': (0.15, 'equipment'),
-    'equipment:equipment:span2': (0.15, 'equipment'), 'equipment:equipment:raman_efficiency': (0.15, 'equipment'),
-    'topology:class:b': (0.10, 'topology'), 'topology:topology:per_degree_design_bands': (0.08, 'topology'),
+    'equipment:equipment:span2': (0.15, 'equipment'), 'equipment:equipment:raman_efficiency': (0.08, 'equipment'),
+    'topology:class:b': (0.05, 'topology'), 'topology:topology:per_degree_design_bands': (0.08, 'topology'),
     'topology:topology:loss_coef-per-frequency': (0.10, 'topology'), 'topology:topology:lumped_losses': (0.10, 'topology'),
     'topology:topology:RamanFiber': (0.10, 'topology'), 'topology:topology:per_degree_pch_out_db': (0.05, 'topology'),
     'services:services:synchronization': (0.05, 'services'), 'services:services:slot:multi': (0.05, 'services'),
-    'propagation:propagated': (0.5, 'propagation'),
+    'propagation:propagated': (0.25, 'propagation'),
 }
 
 CHECKS = [
